@@ -8,6 +8,7 @@ import (
 	"os"
 	"reflect"
 	"strings"
+	"sync"
 	"time"
 
 	"github.com/zmap/zcrypto/x509"
@@ -125,6 +126,8 @@ func oidFromString(s string) asn1.ObjectIdentifier {
 	return o
 }
 
+var certPool = sync.Pool{New: func() interface{} { return new(x509.Certificate) }}
+
 func cmdMockLife(args []string) {
 	parseFlags(args)
 	var cases []lifeCase
@@ -211,7 +214,12 @@ func cmdMockLife(args []string) {
 			}()
 			switch lc.Kind {
 			case "cert":
-				cp := *baseCert
+				// the certificate object is taken from a pool and overwritten: consecutive cases often reach the framework through
+				// the SAME pointer with different content (a verdict must be a function of the content at the time of the call)
+				pooled := certPool.Get().(*x509.Certificate)
+				defer certPool.Put(pooled)
+				*pooled = *baseCert
+				cp := pooled
 				cp.NotBefore = t
 				cp.ExtKeyUsage = nil
 				for _, e := range lc.Ekus {
@@ -239,7 +247,7 @@ func cmdMockLife(args []string) {
 					}
 					return lmCert{mk}
 				}}
-				r = l.Execute(&cp, cfg)
+				r = l.Execute(cp, cfg)
 			case "crl":
 				cp := *baseCRL
 				cp.ThisUpdate = t
